@@ -3,7 +3,9 @@
 Bounded-exhaustive enumeration of note lists x control streams x thresholds x (ppq, mpq), of the numeric
 types in which the times and controller values are handed over (Python / numpy integers and floats), of
 threshold-assignment histories, of edit-then-query-again sequences on one part (in-place edits of the
-notes / resolution / threshold with note_array() after every step, `mc/c14_edits.py`), and of track
+notes / resolution / threshold with note_array() after every step, `mc/c14_edits.py`), of notes carrying a
+stale sounding end (sound_off keys in the note dictionaries, in-place edits of the notes / the control stream
+that leave sound_off behind) followed by threshold assignments (`mc/c14_stale.py`), and of track
 layouts of multi-part performances.  The real
 `PerformedPart` / `Performance` is executed on every case and compared with the reference pedal
 model in `mc/c14_model.py` (exact `Fraction` arithmetic, written from the property statement).
@@ -14,6 +16,7 @@ from itertools import combinations, product
 from mc.core import CaseResult, Space, run_check, guarded, innermost_partitura_frame, exc_text
 from mc import c14_model as M
 from mc import c14_edits as E
+from mc import c14_stale as S
 
 PID = "C14"
 RULE = (
@@ -24,7 +27,10 @@ RULE = (
     "non-trivial = at least one note and one sustain-pedal event (pedal spaces) or two parts (track space); "
     "note-array-edits: one case = (part configuration, prefix of editing operations), evaluated for the prefix and for "
     "every applicable next operation, each sequence on a fresh part with note_array() before the first and after every "
-    "operation; non-trivial = at least one note and an operation that changes what the time columns have to report"
+    "operation; non-trivial = at least one note and an operation that changes what the time columns have to report; "
+    "stale-sound-ends: one case = (part configuration with optional sound_off keys, prefix of operations), evaluated for "
+    "the prefix + every applicable next operation + every threshold assignment, each sequence on a fresh part; the "
+    "sounding ends are judged on the fresh part and after every threshold assignment; non-trivial = at least one note"
 )
 ASSUMPTIONS = [
     "note dictionaries use the key midi_pitch (the reading of every partitura loader) and controls carry number/time/value",
@@ -46,6 +52,14 @@ ASSUMPTIONS = [
     "control times it leaves in the part are read back (exactly) as the new reference state, the helper itself is not judged; "
     "it is not applied to parts with note_on_tick/note_off_tick keys (it leaves those keys unshifted on the present tree: "
     "reported with proposed_fixes/C14-s-remove-silence-tick-keys.diff; switch mc/c14_edits.SILENCE_WITH_TICK_KEYS)",
+    "stale-sound-ends: a note dictionary with a sound_off key >= note_off is a note like any other (the loaders and "
+    "from_note_array hand such dictionaries over): building the part sets the threshold, so the sounding end is the one "
+    "the pedal dictates, not the given one; dictionaries with sound_off < note_off are not enumerated. A part whose notes "
+    "or control list were edited in place (note_off / note_on / sound_off of a PerformedNote, list operations on / "
+    "assignment of PerformedPart.controls, the value of a control dictionary) is a performed part like any other: "
+    "'setting it recomputes every note' is read as: after the assignment every sounding end is the one the pedal model "
+    "gives for the present notes, controls and threshold; the state between an edit and the next assignment is not judged; "
+    "an in-place edit that raises is recorded in the outcome, not judged",
     "numeric-types: note_on/note_off, control times and controller values may be given as any real number type that holds "
     "the value (Python int/float, numpy integer and floating scalars): the statement quantifies over the notes and times, "
     "not over their representation; sound_off and the note array are read with float() and compared with the same "
@@ -358,6 +372,63 @@ def edit_cases(tier):
     return out
 
 
+SCTRL = [[], [[67, "1/2", 127]], [[64, "1/2", 127]], [[64, "1/2", 127], [64, "5/2", 0]], [[64, "1/2", 127], [64, "3/2", 0]],
+         [[67, "0", 127], [64, "3/2", 100]], [[64, "1/2", 0]]]
+SCTRL_B = [[], [[67, "1/2", 127]], [[64, "1/2", 127], [64, "5/2", 0]], [[64, "1/2", 127]]]
+SO_OPTS = [None, "=", "3"]  # "sound_off" key of the note dictionary: absent / equal to the release / 3 (after every release)
+STALE_BLOCKS = 8
+
+
+def stale_notes(ivs, sos):
+    return [[p, ch, fs(a), fs(b), (fs(b) if so == "=" else so)] for (p, ch, (a, b)), so in zip(ivs, sos)]
+
+
+def stale_cases(tier, seed):
+    """(configuration, prefix of operations); the evaluation runs the prefix, then prefix + every applicable next
+    operation, each followed by every threshold assignment, each sequence on a fresh part"""
+    thorough = tier == "thorough"
+    iv = intervals(G3)
+    # (a) every single operation
+    nls = [stale_notes([(60, 0, a)], [so]) for a in iv for so in SO_OPTS]
+    k = 0
+    for pp in ((60, 60), (60, 61)):
+        for a, b in product(iv, repeat=2):
+            for sos in product(SO_OPTS, repeat=2):
+                k += 1
+                if not thorough and sos != (None, None) and k % STALE_BLOCKS != seed % STALE_BLOCKS:
+                    continue
+                nls.append(stale_notes([(pp[0], 1, a), (pp[1], 0, b)], sos))
+    i = 0
+    for nl in nls:
+        for cs in SCTRL:
+            i += 1
+            yield {"k": "stale", "notes": nl, "ctrl": cs, "pq": EPQ[i % 4], "thr": ETHR0[(i // 7) % 3], "pre": []}
+    # (b) every ordered pair of operations
+    iv1 = [(0, 1), (1, 2), (0, 2), (1, 1)]
+    iv2 = [(0, 1), (1, 2), (0, 2)] if thorough else [(0, 1), (1, 2)]
+    nls = [stale_notes([(60, 0, a)], [so]) for a in iv1 for so in (None, "3")]
+    k = 0
+    for pp in ((60, 60), (60, 61)):
+        for a, b in product(iv2, repeat=2):
+            k += 1
+            nls.append(stale_notes([(pp[0], 1, a), (pp[1], 0, b)], [(None, None), (None, "3"), ("3", None)][k % 3]))
+    i = 0
+    for nl in nls:
+        for cs in SCTRL_B:
+            i += 1
+            c = {"k": "stale", "notes": nl, "ctrl": cs, "pq": EPQ[i % 4], "thr": ETHR0[(i // 4) % 3], "pre": []}
+            for op in S.ops_for(stale_state0(c)):
+                d = dict(c)
+                d["pre"] = [op]
+                yield d
+
+
+def stale_state0(case):
+    return {"notes": [{"id": "n%d" % i, "p": p, "ch": ch, "on": F(on), "off": F(off), "vel": VEL[i % 3]}
+                      for i, (p, ch, on, off, so) in enumerate(case["notes"])],
+            "ctrl": [[num, F(t), v] for num, t, v in case["ctrl"]], "thr": case["thr"]}
+
+
 def spaces(tier, seed):
     sp = []
     thorough = tier == "thorough"
@@ -450,6 +521,25 @@ def spaces(tier, seed):
         ("10 (one note) / 5 (two notes) intervals of {0,1/3,1/2,2}" if thorough else "the intervals {(0,2),(1/2,2),(1/2,1/2)}, operations over the grid {0,1/2,2}") +
         " x the 3 control streams ((ppq,mpq), tick keys, initial threshold cycled). Parts with note_on_tick/"
         "note_off_tick keys (kept consistent by the edits) get no remove_silence and no ppq/mpq operation"))
+    sp.append(Space(
+        "stale-sound-ends", (lambda: stale_cases(tier, seed)), True,
+        "notes that carry a sounding end the pedal does not dictate, then (re)assignment of the threshold: parts of 1-2 notes "
+        "(pitch patterns 60 / 60,60 / 60,61, on<=off on grid 0..2) whose note dictionaries come with a sound_off key "
+        "{absent, equal to the release, 3} per note, x 7 control streams (none / only cc67 / pedal pressed and never lifted / "
+        "pressed and lifted at 2.5 / at 1.5 / cc67 + one pedal event of value 100 / one pedal event of value 0), initial "
+        "threshold and (ppq,mpq) cycled. Operation alphabet on the built part: in-place assignment of note_off alone / "
+        "note_on alone (other grid times, on<=off kept, sound_off left behind) / sound_off alone ({1,2,3} >= release), "
+        "del controls[j], controls.clear(), controls = new list without cc64 events, controls[j]['value'] = other value of "
+        "{0,64,127} (cc64 events), controls.append(cc64 event at .5 or 2.5, value 127 or 0), sustain_pedal_threshold = every "
+        "value of {0,64,127} (the present one included). The sounding ends of the fresh part and after EVERY threshold "
+        "assignment are compared with the pedal model on the present notes and controls (+ threshold stored, note array). "
+        "(a) fresh part + every threshold assignment, and every single operation followed by every threshold assignment, on "
+        + ("every such part" if thorough else "every 1-note part, every 2-note part without sound_off keys and block %d of %d of the 2-note "
+           "parts with sound_off keys" % (seed % STALE_BLOCKS, STALE_BLOCKS)) +
+        "; (b) every ordered pair of operations followed by every threshold assignment on parts of 1 note (intervals "
+        "(0,1),(1,2),(0,2),(1,1); sound_off absent / 3) or 2 notes (ordered pairs of " +
+        ("(0,1),(1,2),(0,2)" if thorough else "(0,1),(1,2)") +
+        ", sound_off keys cycled over none / second / first note) x 4 control streams; every sequence on a fresh part"))
     nls, css = hist_configs(tier)
     inits = T5 if thorough else [64, 0, 127]
     sp.append(Space(
@@ -509,7 +599,7 @@ def note_types(scheme, i):
     raise ValueError(scheme)
 
 
-def build_part(notes, ctrl, thr, pq, ticks, types=None):
+def build_part(notes, ctrl, thr, pq, ticks, types=None, sos=None):
     from partitura.performance import PerformedPart
 
     if types is not None:
@@ -531,6 +621,8 @@ def build_part(notes, ctrl, thr, pq, ticks, types=None):
         if ticks:
             d["note_on_tick"] = int(on * 1000000 * ppq / mpq)
             d["note_off_tick"] = int(off * 1000000 * ppq / mpq)
+        if sos is not None and sos[i] is not None:
+            d["sound_off"] = float(sos[i])  # the note dictionary comes with its own sounding end
         nd.append(d)
     cd = [dict(type="sustain_pedal" if num == 64 else "soft_pedal", number=num, time=float(t), value=v, track=0, channel=0)
           for num, t, v in ctrl]
@@ -1051,10 +1143,92 @@ def eval_edit(case):
     return res
 
 
+def eval_stale(case):
+    notes5 = case["notes"]
+    notes = [(p, ch, F(on), F(off)) for p, ch, on, off, so in notes5]
+    sos = [None if so is None else F(so) for p, ch, on, off, so in notes5]
+    ctrl = [(num, F(t), v) for num, t, v in case["ctrl"]]
+    pq = case["pq"]
+    res = CaseResult(states=0, transitions=0, traces=0)
+    st0 = stale_state0(case)
+    flags = {"raised": 0, "nopedal": 0, "pedal": 0, "ext": 0}
+
+    def judge(pp, st, ctx):
+        n4 = [(n["p"], n["ch"], n["on"], n["off"]) for n in st["notes"]]
+        ped = [(c[1], c[2]) for c in st["ctrl"] if c[0] == 64]
+        ref = M.ref_sound([(n["p"], n["on"], n["off"]) for n in st["notes"]], ped, st["thr"])
+        res.states += 1
+        flags["pedal" if ped else "nopedal"] += 1
+        if pp.sustain_pedal_threshold != st["thr"]:
+            res.fail("threshold-stored", expected=st["thr"], observed=pp.sustain_pedal_threshold, where="sustain_pedal_threshold", detail=ctx)
+        flags["ext"] += check_sound(res, n4, sound_offs(pp), ref, ctx)
+        return n4
+
+    def run(seq):
+        """the sequence on a fresh part; False after a violation"""
+        nv = len(res.violations)
+        ok, pp = guarded(res, "construction-never-fails", build_part, notes, ctrl, case["thr"], pq, 0, None, sos)
+        res.transitions += 1
+        res.traces += 1
+        if not ok:
+            return False
+        st = st0
+        n4 = None
+        if not seq:
+            n4 = judge(pp, st, "fresh part (sound_off keys of the note dictionaries: %r)" % ([so for *_, so in notes5],))
+        for j, op in enumerate(seq):
+            if len(res.violations) > nv:
+                return False
+            ctx = "fresh part + %s" % " + ".join(repr(o) for o in seq[:j + 1])
+            res.transitions += 1
+            try:
+                S.apply_real(pp, op)
+            except Exception as e:  # noqa
+                if op[0] == "thr":
+                    res.fail("assignment-never-fails", kind="exception", where=innermost_partitura_frame(e), observed=exc_text(e), detail=ctx)
+                else:
+                    flags["raised"] += 1  # in-place edits are not judged by this property
+                return False
+            st = S.apply_model(st, op)
+            if op[0] == "thr":
+                n4 = judge(pp, st, ctx)
+        if len(res.violations) > nv:
+            return False
+        if n4 is not None:
+            res.transitions += check_note_array(res, pp, n4, pq, "fresh part + %r" % (seq,), rebuild=not seq,
+                                                vels=[n["vel"] for n in st["notes"]])
+        return len(res.violations) == nv
+
+    pre = case["pre"]
+    st = st0
+    for op in pre:
+        st = S.apply_model(st, op)
+    done = False
+    if not pre:
+        done = not run([])
+    for t in S.THR:
+        if done:
+            break
+        done = not run(pre + [["thr", t]])
+    for op in S.ops_for(st):
+        if done:
+            break
+        for t in S.THR:
+            if not run(pre + [op, ["thr", t]]) and res.violations:
+                done = True
+                break
+    res.nontrivial = bool(notes)
+    res.outcome = "stale d%d n%d nopedal=%d pedal=%d ext=%d%s" % (
+        len(pre) + 1, len(notes), flags["nopedal"] > 0, flags["pedal"] > 0, flags["ext"] > 0, " edit-raised" if flags["raised"] else "")
+    return res
+
+
 def eval_case(case):
     k = case["k"]
     if k == "edit":
         return eval_edit(case)
+    if k == "stale":
+        return eval_stale(case)
     if k == "pedal":
         return eval_pedal(case)
     if k == "tv":
